@@ -31,6 +31,48 @@ def entry_machine(jm):
     return m
 
 
+def _pointer_stores(F, path):
+    """symbolic evaluation of a fixed-mbuff execution wrapper: every path that reaches the parent's
+    execute call performed both pointer stores, and its condition does not depend on the packet"""
+    fn = F.fns.get(path)
+    if not fn:
+        return "missing", False
+    ev = symex.Evaluator(F, opaque_calls=lambda p: p.startswith("EbpfVmMbuff::execute_program") or p.endswith("CraneliftProgram::execute"))
+    args = [ev.sym_for("a%d" % i, p["ty"]) for i, p in enumerate(fn["thir"]["params"])]
+    outs = ev.run_fn(path, args) or []
+    runs, problems = 0, []
+    for v, s in outs:
+        ran = [e for e in s.effects if e[0] == "call" and isinstance(e[1], str) and (e[1].startswith("EbpfVmMbuff::execute_program") or e[1].endswith("CraneliftProgram::execute"))]
+        if not ran:
+            if not (isinstance(v, tuple) and v and v[0] == "struct" and v[2] == "Err"):
+                problems.append("a path neither runs the program nor returns Err")
+            continue
+        runs += 1
+        if s.unrec:
+            problems.append("unrecognised: %s" % (s.unrec[:1],))
+        writes, last_idx = [], None
+        for e in s.effects:
+            if e[0] != "call" or not isinstance(e[1], str):
+                continue
+            if e[1].endswith("IndexMut<I>>::index_mut"):
+                last_idx = repr(e[2][1])
+            elif e[1].endswith("write_u64"):
+                off = "data_end_offset" if last_idx and "data_end_offset" in last_idx else ("data_offset" if last_idx and "data_offset" in last_idx else "?")
+                if last_idx and "RangeFrom" not in last_idx:
+                    off = "?"
+                val = e[2][1]
+                ptr = ("call", "as_ptr", (("obj", "a1", fn["thir"]["params"][1]["ty"]),), 64)
+                ln = ("call", "len", (("obj", "a1", fn["thir"]["params"][1]["ty"]),), 64)
+                kind = "ptr" if val == ptr else ("ptr+len" if val == T.op("add", 64, ptr, ln) else T.show(val)[:60])
+                writes.append((off, kind))
+                last_idx = None
+        if sorted(writes) != [("data_end_offset", "ptr+len"), ("data_offset", "ptr")]:
+            problems.append("stores on a running path: %s" % (sorted(writes),))
+    if runs == 0:
+        problems.append("no path runs the program")
+    return (sorted(set(problems)) or "%d running paths, both stores on each" % runs), not problems
+
+
 def run(rep, tier):
     cx = Ctx(rep, "std")
     F = cx.F
@@ -122,20 +164,11 @@ def run(rep, tier):
             good, found = got == want, got
         rep.ob(rc, path, good, "buffer length closure of %s" % path, expected="x >= y ? x + 8 : y + 8", found=found)
 
-    rd = rep.rule("R09.d", "fixed-mbuff executions store the packet start / end pointers at the configured offsets", floor=1)
+    rd = rep.rule("R09.d", "fixed-mbuff executions store the packet start / end pointers at the configured offsets", floor=2)
     for path in ["EbpfVmFixedMbuff::execute_program"]:
-        fn = F.fns.get(path)
-        writes = []
-        if fn:
-            for n in walk(fn["thir"]["body"]):
-                if n.get("k") == "call" and (callee_path(n) or "").endswith("write_u64"):
-                    dst, val = repr(n["args"][0]), n["args"][1]
-                    off = "data_end_offset" if "data_end_offset" in dst else ("data_offset" if "data_offset" in dst else "?")
-                    vtxt = repr(val)
-                    kind = "ptr+len" if ("as_ptr" in vtxt and "'len'" in vtxt or ("as_ptr" in vtxt and "::len" in vtxt)) else ("ptr" if "as_ptr" in vtxt else "?")
-                    writes.append((off, kind))
-        rep.ob(rd, path, sorted(writes) == [("data_end_offset", "ptr+len"), ("data_offset", "ptr")],
-               "%s: little-endian u64 writes into the internal buffer" % path, expected=[("data_offset", "mem.as_ptr()"), ("data_end_offset", "mem.as_ptr()+mem.len()")], found=writes)
+        found, good = _pointer_stores(F, path)
+        rep.ob(rd, path, good, "%s: on every path that runs the program, little-endian u64 writes into the internal buffer" % path,
+               expected="buffer[data_offset..] := mem.as_ptr(), buffer[data_end_offset..] := mem.as_ptr() + mem.len(), unconditionally", found=found)
 
     # ---- interpreter r1 / r10 are decided under C01/R01.f; cite
     ri = rep.rule("R09.i", "interpreter initial r1/r10 (shared with C01/R01.f) and legacy-load base == packet", floor=1)
@@ -162,6 +195,10 @@ def run(rep, tier):
             if n.get("k") == "call" and (callee_path(n) or "").endswith("CraneliftProgram::execute"):
                 a = [repr(x) for x in n["args"][1:]]
                 ok2 = len(a) == 4 and "mem_ptr" in a[0] and "'mem'" in a[1] and "mbuff" in a[2] and "mbuff" in a[3]
+    found, good = _pointer_stores(Fc, "EbpfVmFixedMbuff::execute_program_cranelift")
+    rep.ob(rd, "EbpfVmFixedMbuff::execute_program_cranelift", good,
+           "EbpfVmFixedMbuff::execute_program_cranelift: on every path that runs the program, little-endian u64 writes into the internal buffer",
+           expected="buffer[data_offset..] := mem.as_ptr(), buffer[data_end_offset..] := mem.as_ptr() + mem.len()", found=found)
     rep.ob(rcl, "wrapper-args", ok2, "EbpfVmMbuff::execute_program_cranelift argument order", expected="(mem_ptr, mem.len(), mbuff.as_ptr(), mbuff.len())", found=ok2)
     rep.trust("rustc front end / typed THIR", "x86model.py", "SysV argument registers at JIT entry", "byteorder::LittleEndian::write_u64")
     rep.assume("overlapping offsets are excluded by the statement", "allocation failure for huge offsets is out of scope")
